@@ -116,6 +116,10 @@ var blockCores = []string{
 	// statement loop around them keeps polling
 	"a = []\nfor {\nb = a * 4611686018427387904\n}", "a = \"\"\nfor {\nb = a * 4611686018427387904\n}", "a = []\nn = 4611686018427387904\nfor {\nb = a + a\nc = a * n\n}",
 	"a = 1\np = &a\n*p = p\nn = 0\nfor {\nif p == 1 {\nn++\n}\n}", "a = 1\np = &a\n*p = p\nfor {\nx = (p in [1, 2])\nswitch p {\ncase 1:\n}\n}", "a = 1\np = &a\n*p = p\nfor {\nx = (p != p)\n}",
+	// container stores that re-enter the store path (the first store into a nil map that is itself a map entry / member) before a loop: whatever
+	// the interpreter holds while it stores must not keep the run from reaching the loop - and from being cancelled there
+	"m = make(map[string]map[string]int64)\nm[\"x\"] = nil\nm[\"x\"][\"y\"] = 1\nfor {\n}", "m = make(map[string]map[string]int64)\nm.x = nil\nm.x.y = 1\nfor {\n}",
+	"mm = make(map[string]map[string]map[string]int64)\nmm[\"a\"] = nil\nmm[\"a\"][\"b\"] = nil\nmm[\"a\"][\"b\"][\"c\"] = 1\ndelete(mm[\"a\"], \"b\")\nfor k, v in mm {\nmm[k][\"z\"] = nil\n}\nfor {\n}",
 	// spinning without a loop and without a statement list: recursion through functions whose body is one return
 	"func fib(n) {\nreturn n < 2 ? n : fib(n - 1) + fib(n - 2)\n}\nfib(60)",
 	"func even(n, r...) {\nreturn n == 0 ? true : odd(n - 1, 1)\n}\nfunc odd(n, r...) {\nreturn n == 0 ? false : even(n - 1)\n}\nfunc spin(k) {\nreturn even(2000) == spin(k + 1)\n}\nspin(0)",
